@@ -90,7 +90,14 @@ func ledgerScenario(c *Ctx, p ledgerParams) {
 	if c.Rnd.Intn(20) == 0 {
 		w.Genesis(n0, w.wallets[0].Address(), spice.Melange{Currency: 1, SupplementaryCurrency: maxSupp}) // must be rejected
 	}
-	if _, err := w.Genesis(n0, w.wallets[0].Address(), p.supply); err != nil {
+	genesisReceiver := w.wallets[0].Address()
+	if c.Rnd.Intn(8) == 0 {
+		// the sealing node's own address with white space around it is NOT that address: whatever the node
+		// does with such a receiver, the genesis vertex must not end up naming its own issuer
+		genesisReceiver = pick(c, []string{n0.addr + "\n", " " + n0.addr, n0.addr + " ", "\t" + n0.addr + "\r\n"})
+		c.Count("genesis.padded-own-address")
+	}
+	if _, err := w.Genesis(n0, genesisReceiver, p.supply); err != nil {
 		return
 	}
 	supplyV := bval(spice.New(p.supply.Currency, p.supply.SupplementaryCurrency))
@@ -481,6 +488,71 @@ func staleLookups(c *Ctx, round int) {
 			c.Violate("C03", "transaction-sealed-again-after-simultaneous-deliveries", "the transaction of a delivered vertex was sealed again locally", info)
 		}
 		c.Distinct(fmt.Sprintf("stale-deliveries/%d/wins=%d", k, wins))
+	}
+	// ---- one transaction sealed by two different nodes, both vertices delivered to a at the same time
+	{
+		t := w.NewTrx(w.wallets[0], w.wallets[2].Address(), spice.Melange{Currency: 3}, nil)
+		d := w.NewNode()
+		for _, n := range []*Node{b, d} {
+			for _, v := range w.Stream(a) {
+				cp := *v
+				n.ab.AddLeaf(w.ctx, &cp)
+			}
+		}
+		if !d.ab.DagLoaded() {
+			if w.syncFrom(a, d) != nil {
+				return
+			}
+		}
+		w.Seed(b)
+		w.Seed(d)
+		tb, td := t, t
+		vb, err1 := w.Propose(b, &tb)
+		vd, err2 := w.Propose(d, &td)
+		if err1 != nil || err2 != nil || vb.Hash == vd.Hash {
+			return
+		}
+		vs := []accountant.Vertex{vb, vd}
+		errs := make([]error, 2)
+		var wg sync.WaitGroup
+		a.ab.VerifHoldLedger(func() {
+			for i := range vs {
+				wg.Add(1)
+				go func(i int) {
+					defer wg.Done()
+					cp := vs[i]
+					errs[i] = a.ab.AddLeaf(w.ctx, &cp)
+				}(i)
+			}
+			time.Sleep(40 * time.Millisecond)
+		})
+		wg.Wait()
+		snap := w.Snap(a)
+		wins := 0
+		for i := range vs {
+			if errs[i] == nil {
+				wins++
+				w.c.Line("ADD %d %d | ok | %s", a.id, w.DefV(&vs[i]), snap)
+				w.after(a, "add", nil)
+			}
+		}
+		for i := range vs {
+			if errs[i] != nil {
+				w.c.Line("LADD %d %d | %s | %s", a.id, w.DefV(&vs[i]), errTag(errs[i]), snap)
+				w.after(a, "add.stale", errs[i])
+			}
+		}
+		holders := 0
+		sn := a.ab.VerifSnapshot()
+		for _, v := range sn.Vertices {
+			if v.Transaction.Hash == t.Hash {
+				holders++
+			}
+		}
+		if wins != 1 || holders != 1 {
+			c.Violate("C03", "transaction-sealed-by-two-nodes-held-twice", fmt.Sprintf("one transaction sealed by two nodes, both vertices delivered at the same time: %d deliveries admitted, %d vertices of the ledger carry the transaction", wins, holders), info)
+		}
+		c.Distinct(fmt.Sprintf("stale-two-sealers/wins=%d/holders=%d", wins, holders))
 	}
 }
 
